@@ -348,7 +348,8 @@ def install (rw : Rw) (s : Sess) : Sess :=
   | .tls => { restartDec s with tls := true, hs := false, trace := .switch :: s.trace }
 
 inductive Outcome
-  | done (state : Mask) (tls : Bool)
+  /-- a session: its state, whether a TLS layer is installed, whether its handshake is complete -/
+  | done (state : Mask) (tls : Bool) (hs : Bool)
   | stop (why : Stop)
   deriving Repr, DecidableEq
 
@@ -358,7 +359,7 @@ connection (a new `io.ReadWriter`, so the decoder is recreated) and is called ag
 def loop (cfg : Cfg) : Nat → Bool → Sess → Sess × Outcome
   | 0, _, s => (s, .stop .fuel)
   | fuel + 1, teeOn, s =>
-    if has s.state Ready then (s, .done s.state s.tls)
+    if has s.state Ready then (s, .done s.state s.tls (s.tls && s.hs))
     else
       let s1 := if cfg.tee && !teeOn then restartDec s else s
       match step cfg.toFCfg (fuel + 1) s1 with
